@@ -81,6 +81,39 @@ def generate(rng, tier):
         if not (flat["limit"] and hd["hookraise"] in ("cease", "exit")):
             continue
         out.append({"flat": flat, "nested": group(rng, flat, depth=rng.choice([1, 2, 3]))})
+    out += _gen_remove_pairs(rng, 60 * n)
+    return out
+
+
+def _gen_remove_pairs(rng, n):
+    """A doer removes siblings on both sides of itself in the middle of a pass: listed flat it calls the Doist's
+    remove(), grouped (with all of them) into one tock-0 DoDoer it calls that DoDoer's remove().  The forced exits of
+    the removed doers (reverse enter order, at once) and everything after are the same."""
+    out = []
+    Y = lambda: {"es": [], "out": ["y", None]}
+    for _ in range(n):
+        k = rng.randint(4, 7)
+        tock = rng.choice([0.25, 0.5, 1.0])
+        defs = {str(i): {"kind": rng.choice(["func", "bound", "doer", "doergen"]),
+                         "script": [Y() for _ in range(rng.randint(4, 8))] + [{"es": [], "out": ["r", "true"]}]}
+                for i in range(1, k + 1)}
+        lo = rng.randint(1, 2)
+        hi = rng.randint(k - 1, k)
+        span = list(range(lo, hi + 1))                # the doers that get grouped
+        c = rng.choice(span[1:-1] or span)            # the caller: not at an end of the group when possible
+        victims = [i for i in span if i != c and rng.random() < 0.7] or [span[0]]
+        arg = list(victims)
+        if rng.random() < 0.5:
+            rng.shuffle(arg)
+        at = rng.randint(1, 3)
+        flat = {"tock": tock, "limit": rng.choice([None, 6 * tock]), "tyme": 0.0, "doers": list(range(1, k + 1)), "mode": "do", "defs": defs}
+        nested = copy.deepcopy(flat)
+        g = k + 1
+        nested["defs"][str(g)] = {"kind": "nest", "tock": 0.0, "always": False, "kids": span}
+        nested["doers"] = [i for i in range(1, lo)] + [g] + [i for i in range(hi + 1, k + 1)]
+        flat["defs"][str(c)]["script"][at]["es"].append(["rem", 0, arg])
+        nested["defs"][str(c)]["script"][at]["es"].append(["rem", g, arg])
+        out.append({"flat": flat, "nested": nested})
     return out
 
 
